@@ -139,33 +139,7 @@ func runC02(r *Report) {
 	// ---- R-C02-3 close propagation ---------------------------------------------
 	start := r.need("R-C02-3", tunPkg, "Bridge.Start")
 	if start != nil {
-		n := 0
-		for _, g := range start.AnonFuncs {
-			if len(Calls(g, false, "Bridge.CopyWithControl")) == 0 {
-				continue
-			}
-			n++
-			// a deferred call that (through once.Do) reaches Bridge.Close must be registered before any copy
-			okClose := false
-			Instrs(g, func(in ssa.Instruction) {
-				d, ok := in.(*ssa.Defer)
-				if !ok {
-					return
-				}
-				if f := resolveClosure(d.Call.Value, g, 0); f != nil && reachesCall(f, "Bridge.Close", 3) {
-					first := true
-					for _, c := range Calls(g, false, "Bridge.CopyWithControl") {
-						if !Before(in, c.(ssa.Instruction)) {
-							first = false
-						}
-					}
-					if first {
-						okClose = true
-					}
-				}
-			})
-			r.Ob("R-C02-3", g.Pos(), okClose, "each copy direction must defer the once-guarded bridge close before copying, so that the first direction to finish closes the other end", r.P.FuncName(g), "direction-defers-bridge-close")
-		}
+		n := checkDirectionsDeferClose(r, "R-C02-3", start)
 		if n != 2 {
 			r.Fail("R-C02-3", start.Pos(), fmt.Sprintf("expected 2 copy goroutines in Bridge.Start, found %d", n), "Bridge.Start", "anchor")
 		}
@@ -488,4 +462,37 @@ func lenFieldIsZeroFact(ft Fact, field string) bool {
 		return !ft.Pol
 	}
 	return false
+}
+
+// checkDirectionsDeferClose: each copy goroutine of Bridge.Start defers the once-guarded bridge
+// close before it starts copying (the first direction to finish closes the other end). Returns the
+// number of copy directions found.
+func checkDirectionsDeferClose(r *Report, rule string, start *ssa.Function) int {
+	n := 0
+	for _, g := range start.AnonFuncs {
+		if len(Calls(g, false, "Bridge.CopyWithControl")) == 0 {
+			continue
+		}
+		n++
+		okClose := false
+		Instrs(g, func(in ssa.Instruction) {
+			d, ok := in.(*ssa.Defer)
+			if !ok {
+				return
+			}
+			if f := resolveClosure(d.Call.Value, g, 0); f != nil && reachesCall(f, "Bridge.Close", 3) {
+				first := true
+				for _, c := range Calls(g, false, "Bridge.CopyWithControl") {
+					if !Before(in, c.(ssa.Instruction)) {
+						first = false
+					}
+				}
+				if first {
+					okClose = true
+				}
+			}
+		})
+		r.Ob(rule, g.Pos(), okClose, "each copy direction must defer the once-guarded bridge close before copying, so that the first direction to finish closes the other end", r.P.FuncName(g), "direction-defers-bridge-close")
+	}
+	return n
 }
